@@ -28,7 +28,7 @@ func checkC04(w *World, r *Report) {
 	// ---- 1. cancel table
 	fn := ro.CancelInt
 	fname := FuncName(fn)
-	res := w.EnumPaths(fn, EnumOpts{Inline: true})
+	res := w.EnumPaths(fn, EnumOpts{Inline: true, Opaque: w.statelessCallee})
 	r.Count("paths", len(res.Paths))
 	J := "recv.jobsByID[arg0]"
 	vars := map[string]string{"has(" + J + ")": "found", J + ".Canceled": "canceled", J + ".Completed": "completed", J + ".Start": "startptr", J + ".sched": "schedptr", J: "found"}
@@ -442,7 +442,7 @@ func checkCanceledVerdict(w *World, r *Report, ro *Roles) {
 		}
 	}
 	if ro.CancelInt != nil {
-		cr := w.EnumPaths(ro.CancelInt, EnumOpts{Inline: true})
+		cr := w.EnumPaths(ro.CancelInt, EnumOpts{Inline: true, Opaque: w.statelessCallee})
 		for _, p := range cr.Paths {
 			delivers := false
 			for _, e := range p.Effects {
@@ -499,7 +499,7 @@ func checkCanceledVerdict(w *World, r *Report, ro *Roles) {
 	}
 	consumed := ""
 	if ro.Completed != nil {
-		pr := w.EnumPaths(ro.Completed, EnumOpts{Inline: true})
+		pr := w.EnumPaths(ro.Completed, EnumOpts{Inline: true, Opaque: w.statelessCallee})
 		for f := range recorded {
 			okF, seenTrue := true, false
 			for _, p := range pr.Paths {
@@ -599,7 +599,7 @@ func checkCanceledVerdict(w *World, r *Report, ro *Roles) {
 
 	// completion handler: Canceled iff errors.Is(err, context.Canceled); LastError := err
 	if ro.Completed != nil {
-		pr := w.EnumPaths(ro.Completed, EnumOpts{Inline: true})
+		pr := w.EnumPaths(ro.Completed, EnumOpts{Inline: true, Opaque: w.statelessCallee})
 		okIff, okErr := true, true
 		n := 0
 		for _, p := range pr.Paths {
